@@ -249,6 +249,22 @@ func (w *World) CContent(t string, l *Ledger) ([]*wire.MsgTx, bool) {
 		fmt.Sscan(t[2:], &i)
 		return w.payCContent(uint32(i), l)
 	}
+	if t == "cch" {
+		// in-block chain THROUGH the wallet to be restored: t1 pays C's address 0, t2 spends t1:0
+		// and pays wallet A. A follower that does not know C yet records t2 (for A) only; the
+		// later rescan adds t1 to the same block's record
+		c := w.strangerCoin(l, nil)
+		a0, err := w.CAddr(0)
+		A := w.Wallets["A"]
+		if c == nil || err != nil || A == nil || len(A.Addrs) < 2 {
+			return nil, false
+		}
+		cb := w.strangerCoinbase(l.Height + 1)
+		t1 := spend([]*Coin{c}, out(3*Mass+31, stdPk(a0.Hash)), out(c.Value-3*Mass-31-fee, w.SPk))
+		c1 := &Coin{OP: wire.OutPoint{Hash: t1.TxHash(), Index: 0}, Value: 3*Mass + 31, Class: ClassStd}
+		t2 := spend([]*Coin{c1}, out(3*Mass+31-fee, A.Addrs[1].Pk))
+		return []*wire.MsgTx{cb, t1, t2}, true
+	}
 	if t == "sc" || t == "c2a" {
 		// sc: C's oldest coin goes to the stranger; c2a: C pays wallet A (with change back to C's
 		// address 0) - a transaction the node's ready wallet A records on its own, long before C
